@@ -1,8 +1,8 @@
 (* Extraction of the CIF-family model. ExtrOcamlBasic only: Z/positive/N stay Coq datatypes. *)
 From Coq Require Extraction ExtrOcamlBasic.
-From GV Require Import Cif.Quote Cif.Write Cif.Buf Cif.Lex.
+From GV Require Import Cif.Quote Cif.Write Cif.Buf Cif.Lex Cif.JsonNum.
 Extraction Blacklist String List Nat.
 Extraction "cif.ml"
   char_table is_null as_string is_text_field quote
   write_cif block_ops ops_bytes step positions in_bounds buffered_output
-  lex_value wf_class start_ok.
+  lex_value wf_class start_ok write_as_number json_number.
